@@ -277,4 +277,148 @@ theorem totals_units_integrate :
         memK totalExceptionsK p.1) = true := by
   rw [lookupK_eq, ← allR_eq]; decide +kernel
 
+/-! ### connection, completion, segment, region and network-node keys -/
+
+def isCSRK (k : Nat) : Bool := Nat.beq (firstChar k) 67 || Nat.beq (firstChar k) 83 || Nat.beq (firstChar k) 82
+
+/-- the solvent totals of a connection have no rate twin in the table -/
+def levelTotalExceptions : List String := ["CNIT", "CNPT"]
+def levelTotalExceptionsK : List Nat := [1129204052, 1129205844]
+theorem levelTotalExceptionsK_eq : levelTotalExceptionsK = levelTotalExceptions.map keyCode := by decide +kernel
+
+/-- Every accumulating C/S/R key (`COPT`, `CWITL`, `SOFT`, `ROPT`, …) is `mul (expression of its
+…R twin) duration`. -/
+theorem level_totals_are_rate_times_duration :
+    Gen.funsK.all (fun p =>
+      !(isCSRK p.1 && stateIsTotalK p.1) || totalOK lookupK p.1 p.2 || memK levelTotalExceptionsK p.1) = true := by
+  rw [lookupK_eq, ← allR_eq]; decide +kernel
+
+/-- Conversely every C/S/R entry of the shape `mul _ duration` accumulates, and for every C/S/R
+entry the two classifications (`SummaryState::is_total`: accumulate; `SummaryConfig` `Total`:
+efficiency factor along the whole chain) agree — no exception. -/
+theorem level_classifications :
+    Gen.funsK.all (fun p =>
+      !isCSRK p.1 ||
+        ((match p.2 with | .mul _ .duration => true | _ => false) == stateIsTotalK p.1 &&
+          stateIsTotalK p.1 == configIsTotalK p.1)) = true := by
+  rw [← allR_eq]; decide +kernel
+
+/-- unit of every atom-free accumulating C/S/R key = time integral of its rate twin's unit -/
+theorem level_totals_units_integrate :
+    Gen.funsK.all (fun p =>
+      !(isCSRK p.1 && stateIsTotalK p.1 && noAtom p.2) || unitIntegrates lookupK p.1 p.2 ||
+        memK levelTotalExceptionsK p.1) = true := by
+  rw [lookupK_eq, ← allR_eq]; decide +kernel
+
+/-- What the keys below the well level, the region keys and the node keys are: connection rates
+`crate<>` by phase and direction, reservoir-volume rates, connection pressure; completion
+vectors `ratel<>` / `cratel<>`; segment flows `srate<>` and pressures; region rates
+`region_rate<>`; network node pressures; and the ratios built from them. -/
+theorem level_definitions :
+    (lookupFun "COPR" == some (.crate .oil false) && lookupFun "CWPR" == some (.crate .wat false) &&
+     lookupFun "CGPR" == some (.crate .gas false) && lookupFun "COIR" == some (.crate .oil true) &&
+     lookupFun "CWIR" == some (.crate .wat true) && lookupFun "CGIR" == some (.crate .gas true) &&
+     lookupFun "CVPR" == some (.crateResv false) && lookupFun "CVIR" == some (.crateResv true) &&
+     lookupFun "CCIR" == some (.crate .polymer true) && lookupFun "CSIR" == some (.crate .brine true) &&
+     lookupFun "CPR" == some .cpr &&
+     lookupFun "CWCT" == some (.div (.crate .wat false) (.sum (.crate .wat false) (.crate .oil false))) &&
+     lookupFun "CGOR" == some (.div (.crate .gas false) (.crate .oil false)) &&
+     lookupFun "COFR" == some (.sub (.crate .oil false) (.crate .oil true)) &&
+     lookupFun "WOPRL" == some (.ratel .oil false) && lookupFun "WWPRL" == some (.ratel .wat false) &&
+     lookupFun "WGPRL" == some (.ratel .gas false) && lookupFun "WWIRL" == some (.ratel .wat true) &&
+     lookupFun "WGIRL" == some (.ratel .gas true) &&
+     lookupFun "COPRL" == some (.cratel .oil false) && lookupFun "CWPRL" == some (.cratel .wat false) &&
+     lookupFun "CGPRL" == some (.cratel .gas false) && lookupFun "CWIRL" == some (.cratel .wat true) &&
+     lookupFun "CGIRL" == some (.cratel .gas true) &&
+     lookupFun "SOFR" == some (.srate .oil) && lookupFun "SWFR" == some (.srate .wat) &&
+     lookupFun "SGFR" == some (.srate .gas) &&
+     lookupFun "SWCT" == some (.div (.srate .wat) (.sum (.srate .wat) (.srate .oil))) &&
+     lookupFun "SGOR" == some (.div (.srate .gas) (.srate .oil)) &&
+     lookupFun "SPR" == some (.segpress 0) && lookupFun "SPRD" == some (.segpress 1) &&
+     lookupFun "SPRDH" == some (.segpress 2) && lookupFun "SPRDA" == some (.segpress 3) &&
+     lookupFun "SPRDF" == some (.segpress 4) &&
+     lookupFun "ROPR" == some (.regionRate .oil false) && lookupFun "RWPR" == some (.regionRate .wat false) &&
+     lookupFun "RGPR" == some (.regionRate .gas false) && lookupFun "ROIR" == some (.regionRate .oil true) &&
+     lookupFun "RWIR" == some (.regionRate .wat true) && lookupFun "RGIR" == some (.regionRate .gas true) &&
+     lookupFun "GPR" == some (.nodePressure false) && lookupFun "NPR" == some (.nodePressure true) &&
+     lookupFun "GNETPR" == some (.nodePressure true)) = true := by
+  unfold lookupFun; rw [lookupK_eq]; decide +kernel
+
+/-- the positions `segpress i` refers to -/
+theorem segpress_names :
+    Gen.segPressNames = ["Pressure", "PDrop", "PDropHydrostatic", "PDropAccel", "PDropFriction"] := by decide
+
+/-- Unit of each vector below the well level, of region and of node vectors. -/
+theorem level_unit_tags :
+    ((lookupFun "COPR").bind unitOf == some "liquid_surface_rate" &&
+     (lookupFun "CWIR").bind unitOf == some "liquid_surface_rate" &&
+     (lookupFun "CGPR").bind unitOf == some "gas_surface_rate" &&
+     (lookupFun "CVPR").bind unitOf == some "rate" && (lookupFun "CVIT").bind unitOf == some "volume" &&
+     (lookupFun "CCIR").bind unitOf == some "mass_rate" && (lookupFun "CSPR").bind unitOf == some "mass_rate" &&
+     (lookupFun "CCIT").bind unitOf == some "mass" && (lookupFun "CSPT").bind unitOf == some "mass" &&
+     (lookupFun "COPT").bind unitOf == some "liquid_surface_volume" &&
+     (lookupFun "CGIT").bind unitOf == some "gas_surface_volume" &&
+     (lookupFun "CNIT").bind unitOf == some "gas_surface_volume" &&
+     (lookupFun "CWCT").bind unitOf == some "water_cut" && (lookupFun "CGOR").bind unitOf == some "gas_oil_ratio" &&
+     (lookupFun "CPR").bind unitOf == some "pressure" &&
+     (lookupFun "WOPRL").bind unitOf == some "liquid_surface_rate" &&
+     (lookupFun "WGPTL").bind unitOf == some "gas_surface_volume" &&
+     (lookupFun "COPTL").bind unitOf == some "liquid_surface_volume" &&
+     (lookupFun "CGORL").bind unitOf == some "gas_oil_ratio" &&
+     (lookupFun "SOFR").bind unitOf == some "liquid_surface_rate" &&
+     (lookupFun "SGFR").bind unitOf == some "gas_surface_rate" &&
+     (lookupFun "SGFRS").bind unitOf == some "gas_surface_rate" &&
+     (lookupFun "SOFT").bind unitOf == some "liquid_surface_volume" &&
+     (lookupFun "SGFT").bind unitOf == some "gas_surface_volume" &&
+     (lookupFun "SWCT").bind unitOf == some "water_cut" && (lookupFun "SOGR").bind unitOf == some "oil_gas_ratio" &&
+     (lookupFun "SPR").bind unitOf == some "pressure" && (lookupFun "SPRDF").bind unitOf == some "pressure" &&
+     (lookupFun "ROPR").bind unitOf == some "liquid_surface_rate" &&
+     (lookupFun "RGIR").bind unitOf == some "gas_surface_rate" &&
+     (lookupFun "RWIT").bind unitOf == some "liquid_surface_volume" &&
+     (lookupFun "RGPT").bind unitOf == some "gas_surface_volume" &&
+     (lookupFun "GPR").bind unitOf == some "pressure" && (lookupFun "NPR").bind unitOf == some "pressure") = true := by
+  unfold lookupFun; rw [lookupK_eq]; decide +kernel
+
+/-- `rate_unit` for every component of `data::Rates::opt` as the leaves report it: gas, dissolved
+gas and solvent are gas surface rates; the reservoir-volume rates are `rate`; polymer, brine and
+the gas mass rate are mass rates; productivity indices have their own measures; every other
+component (water, oil, vaporised oil/water, **energy**, tracer, alq, micp, potentials of liquids)
+falls back to `liquid_surface_rate` — there is no `energy_rate` specialisation. -/
+theorem rate_units_by_phase :
+    Rt.all.map rateLeafUnit =
+      ["liquid_surface_rate", "liquid_surface_rate", "gas_surface_rate", "mass_rate", "gas_surface_rate",
+       "liquid_surface_rate", "gas_surface_rate", "liquid_surface_rate", "rate", "rate", "rate",
+       "liquid_productivity_index", "liquid_productivity_index", "gas_productivity_index",
+       "liquid_surface_rate", "liquid_surface_rate", "gas_surface_rate",
+       "mass_rate", "liquid_surface_rate", "liquid_surface_rate", "liquid_surface_rate", "liquid_surface_rate",
+       "mass_rate"] := by decide +kernel
+
+/-- energy vectors of the three levels (`XEPR`, `XEIR`, `XEPT`, `XEIT`) therefore carry the liquid
+volume measures (the code as it is; see design.d/C09.md) -/
+theorem energy_vectors_carry_liquid_units :
+    levels.all (fun x =>
+      (lookupFun (lvl x "EPR")).bind unitOf == some "liquid_surface_rate" &&
+      (lookupFun (lvl x "EIR")).bind unitOf == some "liquid_surface_rate" &&
+      (lookupFun (lvl x "EPT")).bind unitOf == some "liquid_surface_volume" &&
+      (lookupFun (lvl x "EIT")).bind unitOf == some "liquid_surface_volume") = true := by
+  unfold lookupFun; rw [lookupK_eq]; decide +kernel
+
+/-- polymer, brine, solvent and gas-mass vectors of the three levels -/
+theorem other_phase_unit_tags :
+    levels.all (fun x =>
+      (lookupFun (lvl x "CPR")).bind unitOf == some "mass_rate" &&
+      (lookupFun (lvl x "CIR")).bind unitOf == some "mass_rate" &&
+      (lookupFun (lvl x "CPT")).bind unitOf == some "mass" &&
+      (lookupFun (lvl x "CIT")).bind unitOf == some "mass" &&
+      (lookupFun (lvl x "SPR")).bind unitOf == some "mass_rate" &&
+      (lookupFun (lvl x "SIR")).bind unitOf == some "mass_rate" &&
+      (lookupFun (lvl x "SIT")).bind unitOf == some "mass" &&
+      (lookupFun (lvl x "NPR")).bind unitOf == some "gas_surface_rate" &&
+      (lookupFun (lvl x "NIR")).bind unitOf == some "gas_surface_rate" &&
+      (lookupFun (lvl x "NPT")).bind unitOf == some "gas_surface_volume" &&
+      (lookupFun (lvl x "NIT")).bind unitOf == some "gas_surface_volume" &&
+      (lookupFun (lvl x "GMIR")).bind unitOf == some "mass_rate" &&
+      (lookupFun (lvl x "GMIT")).bind unitOf == some "mass") = true := by
+  unfold lookupFun; rw [lookupK_eq]; decide +kernel
+
 end OpmVerif.SumFuns.Table
